@@ -208,6 +208,11 @@ mutual
     | .cons _ e rest => walkParamsRev c env sel rest ++ walkExpr c env sel e
 end
 
+/-- `accept_EventDataListNode`: the data items' values in source order -/
+def walkParamsFwd (c : TCtx) (env : Env) (sel : Option String) : Params → List Row
+  | .nil => []
+  | .cons _ e rest => walkExpr c env sel e ++ walkParamsFwd c env sel rest
+
 /-- a variable an instance-selecting statement declares if the name is not visible yet -/
 def declareIfNew (c : TCtx) (env : Env) (n : String) (many : Bool) (kl : String) : Env :=
   match findVar c env n with
@@ -238,6 +243,18 @@ def lvalueRoot : Expr → Option String
   | .index h _ => lvalueRoot h
   | _ => none
 
+/-- the row of a V_VAR the statement creates: `n` was not visible in `env` and is in `env'` -/
+def declRow (c : TCtx) (env env' : Env) (n : String) : List Row :=
+  match findVar c env n, findVar c env' n with
+  | none, some v => [("V_VAR:" ++ n, v.ty)]
+  | _, _ => []
+
+/-- `create event instance v …`: an unknown `v` becomes a transient of type inst<Event> -/
+def declareEvent (c : TCtx) (env : Env) (v : String) : Env :=
+  match findVar c env v with
+  | some _ => env
+  | none => env.declare v ⟨.trn, some "inst<Event>", ""⟩
+
 mutual
   def walkStmt (c : TCtx) (env : Env) : Stmt → Env × List Row
     | .assign l r =>
@@ -248,27 +265,40 @@ mutual
         | some _ => (env, vr ++ walkExpr c env none l)
         | none =>
           let env' := env.declare n (assignedVar c (typeOf c env none r))
-          (env', vr ++ walkExpr c env' none l)
+          (env', vr ++ walkExpr c env' none l ++ declRow c env env' n)
       | none => (env, vr ++ walkExpr c env none l)
     | .ret none => (env, [])
     | .ret (some e) => (env, walkExpr c env none e)
-    | .create v kl => (declareIfNew c env v false kl, [])
-    | .selFrom card v kl => (declareIfNew c env v (isMany card) kl, [])
-    | .selFromW card v kl w => (declareIfNew c env v (isMany card) kl, walkExpr c env (some kl) w)
-    | .selRel card v h chain => (declareIfNew c env v (isMany card) (lastKl chain), walkExpr c env none h)
+    | .create v kl =>
+      let env' := declareIfNew c env v false kl
+      (env', declRow c env env' v)
+    | .selFrom card v kl =>
+      let env' := declareIfNew c env v (isMany card) kl
+      (env', declRow c env env' v)
+    | .selFromW card v kl w =>
+      let env' := declareIfNew c env v (isMany card) kl
+      (env', walkExpr c env (some kl) w ++ declRow c env env' v)
+    | .selRel card v h chain =>
+      let env' := declareIfNew c env v (isMany card) (lastKl chain)
+      (env', walkExpr c env none h ++ declRow c env env' v)
     | .selRelW card v h chain w =>
       let env' := declareIfNew c env v (isMany card) (lastKl chain)
-      (env', walkExpr c env none h ++ walkExpr c env' (some (lastKl chain)) w)
+      (env', walkExpr c env none h ++ declRow c env env' v ++ walkExpr c env' (some (lastKl chain)) w)
     | .forEach v s b =>
       let kl := match findVar c env s with
         | some info => info.kl
         | none => ""
       let env' := declareIfNew c env v false kl
-      (env', walkBlock c ([] :: env') b)
+      (env', declRow c env env' v ++ walkBlock c ([] :: env') b)
     | .while_ e b => (env, walkExpr c env none e ++ walkBlock c ([] :: env) b)
     | .if_ e b el els =>
       (env, walkExpr c env none e ++ walkBlock c ([] :: env) b ++ walkElifs c env el ++ walkElse c env els)
     | .invoke e => (env, walkExpr c env none e)
+    | .genEvt _ _ d _ => (env, walkParamsFwd c env none d)
+    | .createEvt v _ _ d _ =>
+      let env' := declareEvent c env v
+      (env', declRow c env env' v ++ walkParamsFwd c env' none d)
+    | .genPre e => (env, walkExpr c env none e)
     | _ => (env, [])
   def walkBlock (c : TCtx) (env : Env) : Block → List Row
     | .nil => []
@@ -283,7 +313,14 @@ mutual
     | .some b => walkBlock c ([] :: env) b
 end
 
+def isVarRow (r : Row) : Bool := r.1.toList.take 6 == ['V', '_', 'V', 'A', 'R', ':']
+
 /-- all value instances of an action body, in creation order, with subtype and type -/
-def typeWalk (c : TCtx) (b : Block) : List Row := walkBlock c [[]] b
+def typeWalk (c : TCtx) (b : Block) : List Row := (walkBlock c [[]] b).filter (fun r => !isVarRow r)
+
+/-- all variables the body declares (V_VAR instances other than `self`), in creation order: (name, R848 type).
+    A name declared in a block is gone when the block ends; declaring it again creates another variable. -/
+def varWalk (c : TCtx) (b : Block) : List Row :=
+  ((walkBlock c [[]] b).filter isVarRow).map (fun r => (String.ofList (r.1.toList.drop 6), r.2))
 
 end Pyx.Prebuild
